@@ -10,6 +10,7 @@ import (
 // frameEquiv is the equality of C01: structural equality up to exactly the distinctions the wire format cannot carry
 //   - nil versus empty collections (slices, byte strings, maps),
 //   - an IPv4 address held in 4 or in 16 bytes (net.IP),
+//
 // and nothing else.  Header.BodyLength is excluded here (it is compared with the emitted length by the caller).
 // It returns "" when a and b are equivalent, else the path of the first difference.
 func frameEquiv(a, b interface{}) string {
